@@ -177,11 +177,36 @@ func isAddrOfField(v ssa.Value, fld *types.Var) (ssa.Value, bool) {
 }
 
 func isLoadOfField(v ssa.Value, fld *types.Var) (ssa.Value, bool) {
+	// a value-preserving change of type on the way (a named channel type viewed as `<-chan T`, a named slice type as its
+	// underlying type) and a local the loaded value was kept in do not make it another value
+	for i := 0; i < 4; i++ {
+		switch x := v.(type) {
+		case *ssa.ChangeType:
+			v = x.X
+			continue
+		case *ssa.Convert:
+			if _, isChan := x.Type().Underlying().(*types.Chan); isChan {
+				v = x.X
+				continue
+			}
+		}
+		break
+	}
 	u, ok := v.(*ssa.UnOp)
 	if !ok || u.Op != token.MUL {
 		return nil, false
 	}
-	return isAddrOfField(u.X, fld)
+	if b, ok := isAddrOfField(u.X, fld); ok {
+		return b, true
+	}
+	if _, isAlloc := u.X.(*ssa.Alloc); isAlloc && curCtx != nil {
+		if r := curCtx.Resolve(v); r != v {
+			if u2, ok := r.(*ssa.UnOp); ok && u2.Op == token.MUL {
+				return isAddrOfField(u2.X, fld)
+			}
+		}
+	}
+	return nil, false
 }
 
 func storesToField(f *ssa.Function, fld *types.Var) []*ssa.Store {
